@@ -113,16 +113,18 @@ theorem whole_global_refs_resolve (ls : List Bytes) (m : Module) (h : parse ls =
             split at h
             · cases h
             · split at h
-              · injection h with h
-                subst h
-                have hnames : fs.map (·.name) = t.funcs.map (·.name) :=
-                  mapM'_map _ _ _ (fun a b hab => (translateIn_shape _ _ _ hab).1) _ _ hf
-                intro f hfm n hn
-                have := mapM'_mem _ _ _ hf f hfm
-                obtain ⟨f0, _, h0⟩ := this
-                have := (translateIn_shape _ _ _ h0).2 n hn
-                simpa [genvOf, hnames, List.map_append, List.map_map, Function.comp_def] using this
               · cases h
+              · split at h
+                · injection h with h
+                  subst h
+                  have hnames : fs.map (·.name) = t.funcs.map (·.name) :=
+                    mapM'_map _ _ _ (fun a b hab => (translateIn_shape _ _ _ hab).1) _ _ hf
+                  intro f hfm n hn
+                  have := mapM'_mem _ _ _ hf f hfm
+                  obtain ⟨f0, _, h0⟩ := this
+                  have := (translateIn_shape _ _ _ h0).2 n hn
+                  simpa [genvOf, hnames, List.map_append, List.map_map, Function.comp_def] using this
+                · cases h
 
 /-- **no dangling metadata attachment in an accepted module**: whatever text the parser accepts as a module of the fragment, every `!name !N` attached
     to an instruction of a function body refers to a metadata definition `!N = …` of the module's own metadata section (defined before or AFTER the
@@ -153,14 +155,16 @@ theorem whole_attachment_refs_resolve (ls : List Bytes) (m : Module) (h : parse 
             split at h
             · cases h
             · split at h
-              · rename_i hx
-                injection h with h
-                subst h
-                simp only [Bool.and_eq_true, List.all_eq_true] at hx
-                intro f hfm k hk
-                have := hx.2 k (List.mem_flatMap.mpr ⟨f, hfm, hk⟩)
-                simpa using this
               · cases h
+              · split at h
+                · rename_i hx
+                  injection h with h
+                  subst h
+                  simp only [Bool.and_eq_true, List.all_eq_true] at hx
+                  intro f hfm k hk
+                  have := hx.2 k (List.mem_flatMap.mpr ⟨f, hfm, hk⟩)
+                  simpa using this
+                · cases h
 
 /-- non-vacuity: the accepted module `wholeSample` has three attachments (`!dbg !7`, `!1a !4294967296` on a load; `!x !0` on a `ret`), all defined by
     its metadata section, which follows the functions -/
